@@ -247,6 +247,12 @@ func e2eDecodeRx(sp *simSpeaker) (ups []e2eRxUpdate, problems []string) {
 	opt := e2eWireOpts(sp)
 	sp.mu.Lock()
 	rx := append([]simRxMsg{}, sp.rx...)
+	// the simnet reader keeps no octets of a message gobgp's own parser rejects; it notes them here
+	for _, d := range sp.dupID {
+		if strings.HasPrefix(d, "unparsable message") {
+			problems = append(problems, d)
+		}
+	}
 	sp.mu.Unlock()
 	for i, m := range rx {
 		typ, body, err := wire.ParseHeader(m.Raw)
